@@ -54,15 +54,49 @@ def owned_ids(roots):
 
 
 def instance_census(roots):
+    """(counts, payload): number of live, not harness-owned instances per emmet.* class and
+    the summed size of the containers hanging off them (a long-lived object whose lists
+    grow with every call - e.g. a memoised snippet collecting dependencies - keeps per-call
+    data alive without any new instance appearing)."""
     gc.collect()
     owned = owned_ids(roots)
     counts = {}
+    payload = {}
+    seen = set()
     for o in gc.get_objects():
         t = type(o)
         if _is_lib_type(t) and id(o) not in owned:
             key = '%s.%s' % (t.__module__, t.__qualname__)
             counts[key] = counts.get(key, 0) + 1
-    return counts
+            size = _payload(o, seen)
+            if size:
+                payload[key] = payload.get(key, 0) + size
+    return counts, payload
+
+
+def _payload(obj, seen):
+    "Summed size of the containers directly hanging off one library instance (children instances are visited on their own)"
+    total = 0
+    vals = []
+    d = getattr(obj, '__dict__', None)
+    if isinstance(d, dict):
+        vals.extend(d.values())
+    for cls in type(obj).__mro__:
+        for name in getattr(cls, '__slots__', ()) or ():
+            if isinstance(name, str):
+                try:
+                    vals.append(getattr(obj, name))
+                except AttributeError:
+                    pass
+    for v in vals:
+        if isinstance(v, (dict, list, set, deque)) and id(v) not in seen:
+            seen.add(id(v))
+            total += len(v)
+            for item in (list(v.values()) if isinstance(v, dict) else list(v)):
+                if isinstance(item, (dict, list, set, deque)) and id(item) not in seen:
+                    seen.add(id(item))
+                    total += len(item)
+    return total
 
 
 def _measure(obj, depth, seen):
